@@ -45,6 +45,7 @@ pub fn families() -> Vec<&'static dyn Family> {
         &nsim::chaos::CHAOS,
         &nsim::regrace::REG_RACE,
         &nsim::rrbulk::BULK,
+        &nsim::rejstall::REJ_STALL,
     ]
 }
 
@@ -128,7 +129,7 @@ pub fn plan(property: &str) -> Option<CheckPlan> {
             assumptions: vec!["a replier counts as still bound until a parked poll has happened after its stream end"],
             real: R_REAL.to_vec(),
             stubbed: R_STUB.to_vec(),
-            items: vec![PlanItem { family: &rsim::reqrep::RR_REPLIERS, quick: 150_000, thorough: 4_000_000 }, PlanItem { family: &rsim::reqrep::RR_FAIL_RANDOM, quick: 50_000, thorough: 1_500_000 }, PlanItem { family: &nsim::shutdown::SHUTDOWN_LIVE, quick: 60, thorough: 2_000 }, PlanItem { family: &nsim::regrace::REG_RACE, quick: 200, thorough: 8_000 }],
+            items: vec![PlanItem { family: &rsim::reqrep::RR_REPLIERS, quick: 150_000, thorough: 4_000_000 }, PlanItem { family: &rsim::reqrep::RR_FAIL_RANDOM, quick: 50_000, thorough: 1_500_000 }, PlanItem { family: &nsim::shutdown::SHUTDOWN_LIVE, quick: 60, thorough: 2_000 }, PlanItem { family: &nsim::regrace::REG_RACE, quick: 200, thorough: 8_000 }, PlanItem { family: &nsim::rejstall::REJ_STALL, quick: 64, thorough: 2_000 }],
         }),
         "C15" => Some(CheckPlan {
             property: "C15",
@@ -178,7 +179,7 @@ pub fn plan(property: &str) -> Option<CheckPlan> {
             assumptions: vec!["R part: frames reach the router already decoded (the codec is exercised by C05/C06 and by the N part)"],
             real: R_REAL.to_vec(),
             stubbed: R_STUB.to_vec(),
-            items: vec![PlanItem { family: &rsim::reqrep::RR_FRAMES, quick: 100_000, thorough: 3_000_000 }, PlanItem { family: &rsim::reqrep::RR_REPLIERS, quick: 60_000, thorough: 1_500_000 }, PlanItem { family: &rsim::reqrep::RR_FRAMES_REBIND, quick: 40_000, thorough: 1_000_000 }, PlanItem { family: &nsim::frames::HOSTILE_FRAMES, quick: 300, thorough: 15_000 }, PlanItem { family: &nsim::hostile_server::HOSTILE_SERVER, quick: 200, thorough: 10_000 }, PlanItem { family: &nsim::regrace::REG_RACE, quick: 200, thorough: 8_000 }, PlanItem { family: &nsim::rrbulk::BULK, quick: 48, thorough: 1_600 }],
+            items: vec![PlanItem { family: &rsim::reqrep::RR_FRAMES, quick: 100_000, thorough: 3_000_000 }, PlanItem { family: &rsim::reqrep::RR_REPLIERS, quick: 60_000, thorough: 1_500_000 }, PlanItem { family: &rsim::reqrep::RR_FRAMES_REBIND, quick: 40_000, thorough: 1_000_000 }, PlanItem { family: &nsim::frames::HOSTILE_FRAMES, quick: 300, thorough: 15_000 }, PlanItem { family: &nsim::hostile_server::HOSTILE_SERVER, quick: 200, thorough: 10_000 }, PlanItem { family: &nsim::regrace::REG_RACE, quick: 200, thorough: 8_000 }, PlanItem { family: &nsim::rrbulk::BULK, quick: 48, thorough: 1_600 }, PlanItem { family: &nsim::rejstall::REJ_STALL, quick: 64, thorough: 2_000 }],
         }),
         "C05" => Some(CheckPlan {
             property: "C05",
